@@ -54,7 +54,10 @@ def eval_doc(args):
             pk_dict = use(lambda x: xmlschema.to_dict(x, s, validation='lax')); pk_d = (repr(pk_dict[0]), sig(pk_dict[1]))
         except Exception as e:
             return dict(doc=doc, ver=ver, source=sname, problem=f'non-validation exception {type(e).__name__}: {e}')
-        strip_reason = lambda t: t[:2]
+        # a path is compared in expanded form: the prefix of a step depends on the namespace context at the moment the path is computed (o:extra while the
+        # declaring element is in scope, {urn:o}extra afterwards); both spellings name the same node
+        expand = lambda pth: (pth or '').replace('t:', '{urn:t}').replace('o:', '{urn:o}')
+        strip_reason = lambda t: (t[0], expand(t[1]))
         problems = []
         if valid != (not lax): problems.append('is_valid vs iter_errors')
         if (first is None) != (not lax): problems.append('validate vs iter_errors')
@@ -67,7 +70,7 @@ def eval_doc(args):
         if not lax and not (ds[1] == dlax[0] == dskip): problems.append('data of a valid document depends on the validation mode')
         data_key = dlax[0] if sname not in ('etree', 'element', 'lxml-tree', 'lxml-element') else None
         # bare Element / ElementTree sources carry no prefix map: their paths use {uri}local steps, so paths are compared in expanded form
-        cmp_errs = [(c, (pth or '').replace('t:', '{urn:t}')) for c, pth, _ in lax]
+        cmp_errs = [(c, expand(pth)) for c, pth, _ in lax]
         if base is None: base = (cmp_errs, data_key, sname)
         if cmp_errs != base[0]: problems.append(f'errors differ between source kinds {base[2]} and {sname}')
         if data_key is not None and base[1] is not None and data_key != base[1]: problems.append(f'data differs between source kinds {base[2]} and {sname}')
